@@ -53,13 +53,15 @@ def attr_parts(a):
         return "list", 'rename_all = "%s"' % t[1] + ("," if len(t) > 2 and t[2] else "")
     if k == "convs":
         parts = []
-        for kw, tys in t[1]:
+        for part in t[1]:
+            kw, tys = part[0], part[1]
+            inner_trailing = len(part) > 2 and part[2]
             if kw is None:
                 parts.append(tys[0])
             elif tys is None:
                 parts.append(kw)
             else:
-                parts.append("%s(%s)" % (kw, ", ".join(tys)))
+                parts.append("%s(%s%s)" % (kw, ", ".join(tys), "," if inner_trailing and tys else ""))
         return "list", _list(parts, t[2])
     if k == "flags":
         return "list", _list(t[1], t[2])
@@ -525,6 +527,8 @@ def gen_single_field(rng, n, flags):
     tgt = next(i for i, f in enumerate(it["fields"]) if f["ty"] == inner)
     fl = pick(rng, flags, 1, len(flags)) if flags and rng.random() < 0.6 else []
     fl.sort(key=flags.index)
+    if fl == ["forward"] and rng.random() < 0.35:
+        fl = ["not(forward)"]          # documented negation (utils.rs:1019); same as no `forward`
     if nf == 1:
         c = rng.random()
         if c < 0.3:
@@ -575,8 +579,11 @@ def gen_enum_only(rng, n, refs, variant_refs):
 def gen_mul(rng, n):
     nf = rng.choice([1, 2])
     it = struct([fld("i32") for _ in range(nf)], rng.random() < 0.5)
-    if rng.random() < 0.6:
+    c = rng.random()
+    if c < 0.5:
         it["attrs"].append(A(n, "flags", ["forward"], False))
+    elif c < 0.7:
+        it["attrs"].append(A(n, "flags", ["not(forward)"], False))
     return it
 
 
